@@ -43,6 +43,7 @@ func init() {
 			{Name: "model", Shards: 12, Fn: func(c *Ctx) { cbModelPart(c, "C05") }},
 			{Name: "free", Race: true, Shards: 4, Fn: c05Free},
 			{Name: "cycle", Race: true, Shards: 4, Fn: c05Cycle},
+			{Name: "longfallback", Shards: 2, Fn: c05LongFallback},
 		},
 	})
 	register(&Property{
@@ -885,4 +886,55 @@ func c12EndBurst(c *Ctx) {
 		c.Count("endburst_nontrivial", 1)
 	})
 	c.Require("endburst_nontrivial", 2)
+}
+
+// c05LongFallback: fallback durations from hours up to the largest duration (the idiom for "stay tripped until someone
+// resets it"): after the trip every arrival, however far the clock is advanced short of the deadline, gets the fallback.
+func c05LongFallback(c *Ctx) {
+	c.Cases("longfallback", c.N(200, 4000), func(i int, r *rand.Rand) {
+		fb := pick(r, []time.Duration{time.Hour, 1000 * time.Hour, 100 * 365 * 24 * time.Hour, 250 * 365 * 24 * time.Hour, time.Duration(1<<63 - 1)})
+		freeze(baseTime.Add(time.Duration(r.Int64N(1e9))))
+		defer unfreeze()
+		f := newFreeBreaker("NetworkErrorRatio() > 0.5", fb, time.Second, pick(r, []time.Duration{0, time.Second}))
+		serve := func() bool { // true: reached the handler
+			h0 := f.handled.Load()
+			f.cb.ServeHTTP(httptest.NewRecorder(), httptest.NewRequest("GET", "http://x.test/", nil))
+			return f.handled.Load() != h0
+		}
+		serve() // 502: trips at the first completion
+		d := &cbDriver{cb: f.cb}
+		if s, _, _ := d.observe(); s != "tripped" {
+			c.Violation("until-tripped", sfmt("fallback %v: a failing response with NetworkErrorRatio() > 0.5 left the breaker %s", fb, s), nil)
+			return
+		}
+		f.status.Store(200)
+		var elapsed time.Duration
+		n := 5 + r.IntN(20)
+		for k := 0; k < n; k++ {
+			step := time.Duration(r.Int64N(int64(min(fb/8, 20*365*24*time.Hour)) + 1))
+			if r.IntN(3) == 0 {
+				step = time.Duration(r.Int64N(int64(time.Minute)))
+			}
+			if elapsed+step >= fb {
+				break
+			}
+			advance(step)
+			elapsed += step
+			c.Count("longfallback_arrivals", 1)
+			if serve() {
+				c.Eval()
+				c.Violation("shield", sfmt("fallback duration %v: a request arriving %v after the trip was passed to the protected handler", fb, elapsed), nil)
+				return
+			}
+			if s, _, _ := d.observe(); s != "tripped" {
+				c.Eval()
+				c.Violation("transition", sfmt("fallback duration %v: %v after the trip the breaker is %s", fb, elapsed, s), nil)
+				return
+			}
+		}
+		c.Eval()
+		c.Nontrivial(sfmt("longfallback/%v/%d/%d", fb, n, i))
+		c.Count("longfallback_nontrivial", 1)
+	})
+	c.Require("longfallback_nontrivial", 2)
 }
